@@ -27,9 +27,9 @@ type idealHybrid struct {
 
 func (a *idealHybrid) prefix() []byte {
 	if a.full {
-		return a.k.OutputPrefix()
+		return a.k.WithHead(a.k.OutputPrefix())
 	}
-	return nil
+	return a.k.WithHead(nil)
 }
 
 func (a *idealHybrid) seal(pt, ci []byte) []byte {
@@ -276,4 +276,31 @@ func VerifH_factory_hybrid_rejects() {
 	} else {
 		verifrt.Reach("built")
 	}
+}
+
+// A RAW key's genuine ciphertext decrypts even when its first five bytes happen to equal the
+// output prefix of another ENABLED key of the keyset.
+func VerifH_factory_hybrid_rawcollision() {
+	rec := verifh.InstallMonitoring()
+	ks := verifh.SymbolicKeyset(2, []int{0, 1, 3}, true)
+	raw, collides := verifh.RawCollisionSetup(ks)
+	verifrt.Assume(raw >= 0)
+	dec, err := NewHybridDecryptWithConfig(ks.Handle, stubConfig{dec: true, bad: -1})
+	verifrt.Assert(err == nil, "NewHybridDecryptWithConfig succeeds")
+	if err != nil {
+		return
+	}
+	pt := verifrt.Bytes("pt", verifrt.Choice("ptn", 2))
+	ci := verifrt.Bytes("ci", 1)
+	x := (&idealHybrid{k: ks.Keys[raw], full: true}).seal(pt, ci)
+	mark := len(rec.Events)
+	got, err := dec.Decrypt(x, ci)
+	verifrt.Assert(err == nil, "a RAW key's genuine ciphertext decrypts whatever its leading bytes are")
+	verifrt.AssertEq(got, pt, "to the plaintext")
+	ev := rec.Since(mark, "decrypt")
+	verifrt.Assert(len(ev) == 1 && !ev[0].Failure && ev[0].KeyID == ks.Keys[raw].ID, "decrypt success logged once, naming the RAW key")
+	if collides {
+		verifrt.Reach("collision")
+	}
+	verifrt.Reach("end")
 }
